@@ -279,6 +279,10 @@ def apply_contract(ip: Interp, con: Contract, fn, args, kwargs, bound_cls) -> SV
         c = eval_clause(ip, f, locs)
         if ip.decide(c):
             raise PyRaise(exc, (), con.target)
+    # exceptions the contract merely allows may occur at any time, as far as the caller knows
+    for exc in con.allowed:
+        if ip.decide(st.fresh('may_raise', B)):
+            raise PyRaise(exc, (), con.target + ' (allowed by its contract)')
     # 3. havoc the frame
     pre_heap = dict(st.heap)
     if not con.pure and con.modifies is not None:
